@@ -1058,3 +1058,22 @@ def expr_guards(flow: Flow, sub: ast.AST) -> list[tuple[ast.AST, bool]]:
             break
         cur = par
     return out
+
+
+# ---------------------------------------------------------------------------------------------
+def rereport(run: Any, scratch: Any, rules: Iterable[str], as_rule: str) -> None:
+    """A clause decided by a sibling checker is also a clause of this property: its obligations (run on the
+    scratch Run of the sibling) are counted, and its violations reported, under this property's rule id."""
+    wanted = tuple(rules)
+    for q in sorted(scratch.functions):
+        run.analysed(q)
+    for rid in wanted:
+        for item in scratch.rules.get(rid, {}).get("items", []):
+            run.ok(as_rule, f"{rid}: {item}")
+    bad = [v for v in scratch.violations if v.rule in wanted]
+    for v in bad:
+        file, _, line = v.where.rpartition(":")
+        node = ast.Pass(lineno=int(line), col_offset=0) if line.isdigit() else None
+        # the obligation was counted as discharged above: take that back through the violation bookkeeping
+        run.violation(as_rule, v.function, v.construct, f"[{v.rule}] {v.message}", node=node,
+                      file=(file if line.isdigit() else v.where) or None, path=v.path)
